@@ -57,25 +57,30 @@ def confirm(prop):
 
 
 def run(seed, tier="quick", props=None):
+    """apply the seed to a scratch COPY of /repo (VERIF_REPO points the checks at it), run the checks, remove the copy"""
     d = "/verif/seeded/" + seed
     meta = json.load(open(os.path.join(d, "meta.json")))
-    rc, out = sh("git -C /repo status --porcelain")
-    assert out.strip() == "", "repo not clean: " + out
-    rc, out = sh("git -C /repo apply --whitespace=nowarn %s/patch.diff" % d)
+    wt = "/var/tmp/seedrun-%s-%d" % (seed, os.getpid())
+    shutil.rmtree(wt, ignore_errors=True)
+    rc, out = sh("rsync -a --exclude .git /repo/ %s/" % wt)
+    assert rc == 0, out
+    rc, out = sh("git apply --whitespace=nowarn %s/patch.diff" % d, cwd=wt)
     assert rc == 0, out
     res = {}
+    env = dict(ENV, VERIF_REPO=wt, VERIF_EVIDENCE_DIR=wt + "/_evidence")
     try:
         for p in (props or meta["breaks"]):
             t0 = time.time()
-            rc, out = sh("./check %s --tier %s" % (p, tier), cwd="/verif", timeout=7200)
+            r = subprocess.run("./check %s --tier %s" % (p, tier), cwd="/verif", env=env, shell=True, stdout=subprocess.PIPE,
+                               stderr=subprocess.STDOUT, text=True, timeout=14400)
+            rc, out = r.returncode, r.stdout
             viol = [l for l in out.splitlines() if l.startswith("VIOLATION") or l.startswith("INCONCLUSIVE")]
             res[p] = {"exit": rc, "lines": viol[:6], "wall_s": round(time.time() - t0, 1)}
-            print(seed, p, "exit", rc, "%.0fs" % (time.time() - t0)); [print("   ", l) for l in viol[:6]]
-            det = [x for x in out.splitlines() if x.startswith("  ")][:4]
-            [print("   ", l) for l in det]
+            print(seed, p, "exit", rc, "%.0fs" % (time.time() - t0)); [print("   ", l[:300]) for l in viol[:4]]
+            det = [x for x in out.splitlines() if x.startswith("  ")][:3]
+            [print("   ", l[:300]) for l in det]
     finally:
-        sh("git -C /repo checkout -- .")
-        sh("git -C /verif checkout -- evidence 2>/dev/null")
+        shutil.rmtree(wt, ignore_errors=True)
     return res
 
 
